@@ -65,7 +65,7 @@ var policyFragments = []string{"None", "Basic128Rsa15", "Basic256", "Basic256Sha
 const unknownFragment = "Vendor_Unknown"
 
 type attempt struct {
-	Client string `json:"client"` // uasc | uasc-forced | ref | ref-renew | opcua
+	Client string `json:"client"` // uasc | uasc-forced | ref | ref-as-renew | ref-renew | opcua
 	Policy string `json:"policy"` // URI fragment
 	Mode   int    `json:"mode"`   // wire value of MessageSecurityMode
 }
@@ -137,6 +137,13 @@ func battery() []attempt {
 		}
 	}
 	as = append(as, attempt{"ref", unknownFragment, 1}, attempt{"ref", unknownFragment, 2})
+	// the same, but the FIRST OpenSecureChannel request of the connection says
+	// RequestType = Renew (no conforming client does; added after seed C30-B)
+	for _, f := range policyFragments {
+		for m := 0; m <= 3; m++ {
+			as = append(as, attempt{"ref-as-renew", f, m})
+		}
+	}
 	// renewal of a channel that was opened with a configured pair, asking for another pair
 	for _, sec := range stack.AllSec {
 		as = append(as, attempt{"ref-renew", sec.Policy, int(sec.Mode)})
@@ -280,6 +287,11 @@ func tryOpcua(url string, a attempt, timeout time.Duration) (o outcome) {
 
 // tryRef plays the client with the independent reference implementation.
 func tryRef(url string, a attempt, timeout time.Duration) (o outcome) {
+	return tryRefType(url, a, false, timeout)
+}
+
+// tryRefType: asRenew sets RequestType = Renew in the first (and only) OPN request.
+func tryRefType(url string, a attempt, asRenew bool, timeout time.Duration) (o outcome) {
 	defer func() {
 		if r := recover(); r != nil {
 			o.Infra, o.Detail = true, fmt.Sprintf("reference client panic: %v", r)
@@ -309,7 +321,7 @@ func tryRef(url string, a attempt, timeout time.Duration) (o outcome) {
 		h := sha256.Sum256([]byte(a.String()))
 		nonce = h[:pol.NonceLen]
 	}
-	if _, err := s.OpenRequest(1, 1, false, nonce, 3600_000); err != nil {
+	if _, err := s.OpenRequest(1, 1, asRenew, nonce, 3600_000); err != nil {
 		o.Detail = "send OPN: " + err.Error()
 		return
 	}
@@ -476,6 +488,8 @@ func runAttempt(url string, cfg []int, a attempt, timeout time.Duration) outcome
 		o = tryUASC(url, a, true, timeout)
 	case "ref":
 		o = tryRef(url, a, timeout)
+	case "ref-as-renew":
+		o = tryRefType(url, a, true, timeout)
 	case "opcua":
 		o = tryOpcua(url, a, timeout)
 	default:
@@ -607,6 +621,9 @@ func checkConfig(cfg []int, attempts []attempt) (fails []failure, known int, inf
 			rec.Sample(map[string]any{"config": want, "attempt": a.String(), "opened": o.Opened, "answered": o.Answered, "detail": o.Detail})
 		}
 		switch {
+		case configured && !o.usable() && a.Client == "ref-as-renew":
+			// a server may refuse a first request that calls itself a renewal
+			rec.Class("first-OPN-says-Renew:configured-pair-refused(allowed)")
 		case configured && !o.usable():
 			fails = append(fails, failure{mk(a), fmt.Sprintf("pair %s is configured but attempt %s got no usable channel (opened=%v answered=%v: %s)", name, a, o.Opened, o.Answered, o.Detail)})
 		case !configured && o.usable():
